@@ -103,7 +103,12 @@ wave 19 the first two changes that sit behind a seam (the connection pool of net
 simulated transport, a rename across file systems behind the one-device file seam: "no", see
 section 9) and six value and shape classes (element types of a numeric kind with their own JSON
 form, files older than their rows, integer instantiations of Sqrt, a linked asset file, strategy
-windows of 1, committees of 9-20 members, rows with a close but no high and low).
+windows of 1, committees of 9-20 members, rows with a close but no high and low); wave 20 one
+harness defect (the shared instance of C09 was built outside the simulation: a constructor-made
+channel left a replay blocked until the time limit), one more driving mode (inputs queued before
+the pipeline is built) and value classes (int64 beyond 2^53, inputs of 129-328 values, date
+layouts that render longer than their text, a default start date in a zone ahead of UTC with the
+Tiingo source, base strategies over 1030-1630 snapshots).
 
 | seeded change | wave | what it does | needs | caught at once? | check and verdict |
 |---|---|---|---|---|---|
